@@ -75,7 +75,14 @@ fn mk_iri_path(b: &[u8]) -> Option<&iri::Path> {
 interleave_body!(uri_interleave, uri::Path, mk_uri_path);
 interleave_body!(iri_interleave, iri::Path, mk_iri_path);
 
-// @h prop=C12,C20 tier=quick kind=check bound="uri::Path text <= 8 bytes, every interleaving of 10 next/next_back steps" encodes="uri::Path::new (real validate);PathImpl::{segments,segment_at,next_segment_from,previous_segment_from,first_segment_offset,is_empty};SegmentsImpl::{next,next_back}"
+// @h prop=C12,C20 tier=quick kind=check bound="uri::Path text <= 7 bytes, every interleaving of 9 next/next_back steps" encodes="uri::Path::new (real validate);PathImpl::{segments,segment_at,next_segment_from,previous_segment_from,first_segment_offset,is_empty};SegmentsImpl::{next,next_back}"
+#[cfg_attr(kani, kani::proof)]
+#[cfg_attr(kani, kani::unwind(10))]
+pub fn c12_uri_interleave_n7() {
+    uri_interleave::<7, 9>()
+}
+
+// @h prop=C12,C20 tier=thorough kind=check bound="uri::Path text <= 8 bytes, every interleaving of 10 steps" encodes="same as c12_uri_interleave_n7"
 #[cfg_attr(kani, kani::proof)]
 #[cfg_attr(kani, kani::unwind(11))]
 pub fn c12_uri_interleave_n8() {
